@@ -19,6 +19,93 @@ TRUSTED = ["rustc MIR lowering", "union-find (IntPartition) correctness, see C20
 ASSUMPTIONS = ["the subgroup has finite index (the routine asserts a 100000-row limit otherwise)"]
 
 
+def table_primitives(ctx, g):
+    """the primitives every enumeration step is written in.
+    all_gens(): every generator and every inverse exactly once, no 0 (evaluated for 3 generators).
+    get(c, g): Some(canon(entry)) exactly for a row inside the table with a non-negative entry.
+    merge(a, b) - the coincidence procedure: pairs are taken from a queue, both rows are made canonical, and for a != b EVERY letter is
+    handled: both images defined -> the images become a new coincidence; only one defined -> the other row inherits it; then (after all
+    letters) the two rows are united.  A letter skipped or a case dropped loses deductions; uniting before the letters are processed makes
+    get() answer for the merged class while the rows are still read separately"""
+    ctx.clauses.append("coset table primitives: all_gens = {+-1..+-n}; get = Some(canon(entry)) iff row in table and entry >= 0; merge handles all three cases for every letter and unites afterwards (T4/T9)")
+    me = lambda b: ("param", 1, b.debug.get(1, ""))
+    ag = ctx.body(CT + "::all_gens")
+    ctx.scan(ctx.facts.with_closures(ag.name))
+    bad = None
+    try:
+        got = eval_pipeline(ctx.facts, norm(ag.local_origin(0), g), g, [], {("field", me(ag), "nr_gens"): 3})
+        if not isinstance(got, list) or sorted(got) != [-3, -2, -1, 1, 2, 3]:
+            bad = "for 3 generators all_gens() is %s, not each of 1, 2, 3, -1, -2, -3 exactly once" % (got,)
+    except PipelineError as e:
+        bad = "all_gens() cannot be evaluated (%s)" % e
+    ctx.ob("T4-table-primitives", ag.name, "letters", "ok" if not bad else "violation", "for 3 generators: 1, 2, 3, -1, -2, -3, each once" if not bad else bad)
+    gb = ctx.body(CT + "::get")
+    ctx.scan([gb])
+    c_ = ("param", 2, gb.debug.get(2, ""))
+    bad = None
+    somes = [(dbb, strip(norm(d, g))) for dbb, d in gb.all_defs_origins(0) if strip(norm(d, g))[1].endswith("Option::Some")]
+    if len(somes) != 1:
+        bad = "%d Some(..) returns" % len(somes)
+    else:
+        sb_, sv = somes[0]
+        pay = strip(sv[2][0])
+        fa = [atom_norm(x, g) for x in gb.facts_at(sb_)]
+        ent = None
+        if is_call(pay, CT + "::canon") and strip(pay[2][0]) == me(gb):
+            ent = strip(pay[2][1])
+            while ent[0] == "cast":
+                ent = strip(ent[1])
+        inrow = any(implies(x, ("rel", "Lt", c_, ("call", CT + "::len", (me(gb),)))) for x in fa if x[0] == "rel")
+        nonneg = ent is not None and any(x[0] == "rel" and (implies(x, ("rel", "Le", ("int", 0), ent)) or implies(x, ("rel", "Lt", ("int", -1), ent))) for x in fa)
+        if ent is None:
+            bad = "the answer is not the canonical row of the stored entry: %s" % show(pay, 1)[:60]
+        elif not inrow or not nonneg:
+            bad = "Some(..) is not dominated by c < len() and entry >= 0 (row inside the table: %s, entry defined: %s)" % (inrow, nonneg)
+    ctx.ob("T4-table-primitives", gb.name, "Some(canon(entry))", "ok" if not bad else "violation", "Some(canon(entry)) under c < len() and entry >= 0" if not bad else bad)
+    mb = ctx.body(CT + "::merge")
+    ctx.scan([mb])
+    bad = None
+    pops = list(mb.calls("VecDeque::<T, A>::pop_front"))
+    pushes = [(bi, [strip(norm(mb.origin(x), g)) for x in t["args"]]) for bi, t in mb.calls("VecDeque::<T, A>::push_back")]
+    sets = [(bi, [strip(norm(mb.origin(x), g)) for x in t["args"]]) for bi, t in mb.calls(exact=CT + "::set")]
+    unis = [(bi, [strip(norm(mb.origin(x), g)) for x in t["args"]]) for bi, t in mb.calls("IntPartition::unite")]
+    if not (len(pops) == 1 and len(pushes) == 1 and len(sets) == 2 and len(unis) == 1):
+        bad = "not one pop / one push / two sets / one unite (%d, %d, %d, %d)" % (len(pops), len(pushes), len(sets), len(unis))
+    else:
+        pop = ("field", ("variant", ("call", "std::collections::VecDeque::<T, A>::pop_front", (strip(norm(mb.origin(pops[0][1]["args"][0]), g)),)), "Some"), "0")
+        a_, b_ = ("call", CT + "::canon", (me(mb), ("field", pop, "0"))), ("call", CT + "::canon", (me(mb), ("field", pop, "1")))
+        gl = sets[0][1][2]
+        GA, GB = ("call", CT + "::get", (me(mb), a_, gl)), ("call", CT + "::get", (me(mb), b_, gl))
+        some = lambda t: ("field", ("variant", t, "Some"), "0")
+
+        def has(bi, t, defined):
+            for x in (atom_norm(y, g) for y in mb.facts_at(bi)):
+                if x[0] == ("variant" if defined else "notvariant") and strip(x[1]) == t:
+                    return True
+            return False
+        ub = unis[0][0]
+        rg = iter_source(mb, gl, g)
+        if unis[0][1][1:] != [a_, b_] or not any(x[0] == "rel" and x[1] == "Ne" and {strip(x[2]), strip(x[3])} == {a_, b_} for x in (atom_norm(y, g) for y in mb.facts_at(ub))):
+            bad = "the rows united are not the two canonical rows of the popped pair, under a != b"
+        elif pushes[0][1][1] != ("agg", "tuple", (some(GA), some(GB))) or not (has(pushes[0][0], GA, True) and has(pushes[0][0], GB, True)):
+            bad = "when both images are defined they do not become the new coincidence (a.g, b.g)"
+        else:
+            by = {tuple(x[1][1:3]): x for x in sets}
+            sb1, sa1 = by.get((b_, gl)), by.get((a_, gl))
+            if not (sb1 and sa1 and sb1[1][3] == some(GA) and sa1[1][3] == some(GB) and has(sb1[0], GA, True) and has(sb1[0], GB, False) and has(sa1[0], GA, False) and has(sa1[0], GB, True)):
+                bad = "a row that lacks the image does not inherit it from the other row (set(b, g, a.g) iff only a.g is defined, set(a, g, b.g) iff only b.g is)"
+            elif not (isinstance(rg, tuple) and contains(norm(rg, g), lambda y: is_call(y, CT + "::all_gens"))):
+                bad = "the letters handled are not all_gens()"
+            else:
+                lp = loop_containing(mb, sets[0][0])
+                if lp is None or ub in lp[1] if isinstance(lp, tuple) and len(lp) > 1 and isinstance(lp[1], (set, list, frozenset)) else False:
+                    bad = "the rows are united inside the loop over the letters"
+                elif any(ub in mb.bwd(bi) for bi in (pushes[0][0], sets[0][0], sets[1][0])) and not all(bi in mb.bwd(ub) for bi in (pushes[0][0], sets[0][0], sets[1][0])):
+                    bad = "the rows are united before the letters are handled"
+    ctx.ob("T9-merge-shape", mb.name, "coincidence", "ok" if not bad else "violation",
+           "pop (a, b); canonical; a != b: for every letter push (a.g, b.g) / set(b, g, a.g) / set(a, g, b.g) by definedness; then unite(a, b)" if not bad else bad)
+
+
 def run(ctx):
     g = ctx.facts.getters()
     ctx.clauses.append("relator scans: both exits report (row reached, letters consumed); scan_both_ways = (head with full budget, tail with the rest, gap, w[i]) (T9)")
@@ -300,3 +387,4 @@ def run(ctx):
                     "the coincidence test is not `gap == 0 && head != tail` on this scan's own head and tail (dominating comparisons: %s): a completely traced word that ends in the wrong row is no longer merged, "
                     "the enumeration keeps defining rows and never closes" % [show_atom(x)[:40] for x in fa if x[0] == "rel"][:4], sc.span_of(bi))
     ctx.floor("join/merge sites in scan_and_connect", len(list(sc.calls(exact=CT + "::join"))) + len(list(sc.calls(exact=CT + "::merge"))), 2)
+    table_primitives(ctx, g)
